@@ -89,6 +89,11 @@ func genLabelName(r *Rng) string {
 		}
 		s += string(b)
 	}
+	if len(s) > 253 {
+		// four 63-octet labels: 255 characters, one label too many for RFC 1035's
+		// 255-octet wire limit; the in-domain generators stay inside the domain
+		return s[:191]
+	}
 	return s
 }
 
